@@ -56,15 +56,41 @@ R.contract(M + "_fixedc",
 # character of the alphabet, every code point 0..255) and stays inside the alphabet
 R.contract(M + "_gap_encode",
            types={"pc": STR, "prev": STR, "enc": ROW}, returns=STR, pure=True,
-           requires=["len(pc) == 1", "ord(pc) <= 255", "InAlpha(prev)"],
+           requires=["len(pc) == 1", "InAlpha(prev)"],
            ensures=["len(result) == len(enc)",
                     "all(InAlpha(result[j]) for j in range(len(enc)))",
-                    "DecRow(prev, result, enc) == ord(pc)"])
+                    "implies(ord(pc) <= 255, DecRow(prev, result, enc) == ord(pc))"])
 
 R.contract(M + "juniper_nonrandom_encrypt",
            types={"plain": STR, "salt": Opt(STR)}, returns=STR,
            # any salt value (None, empty, any first character) and any plaintext over code points 0..255
-           requires=["all(ord(plain[j]) <= 255 for j in range(len(plain)))"],
            ensures=["result[:3] == '$9$'", "len(result) >= 4 + 2 * len(plain)"],
            loops={0: LoopContract(["p"], index="_i0", invariant=[
                "crypt[:3] == '$9$'", "len(crypt) >= 4 + 2 * _i0", "InAlpha(prev)", "pos == _i0"])})
+
+# ASSUMED contract of juniper_decrypt for its callers (its loop is only checked bounded, see C18)
+from pyvc.spec import _sp_uf_pred, _sp_uf_fun  # noqa: E402
+def _sp_j9valid(eng, args, kw, n):
+    """J9Valid(s): s is '$9$' followed by at least four alphabet characters (the language of VALID, see the
+    regular-language obligations juniper.VALID#*)"""
+    import z3 as _z3
+    A = _z3.Union(*[_z3.Re(_z3.StringVal(c)) for c in ALPHABET])
+    lang = _z3.Concat(_z3.Re(_z3.StringVal("$9$")), _z3.Loop(A, 4, 4), _z3.Star(A))
+    return P(BOOL, _z3.InRe(eng.term(args[0], STR), lang))
+
+
+def _sp_latin1(eng, args, kw, n):
+    import z3 as _z3
+    return P(BOOL, _z3.InRe(eng.term(args[0], STR), _z3.Star(_z3.Range(_z3.StringVal(chr(0)), _z3.StringVal(chr(255))))))
+
+
+SPEC_BUILTINS["Latin1"] = _sp_latin1
+SPEC_BUILTINS["J9Valid"] = _sp_j9valid
+SPEC_BUILTINS["J9Dec"] = _sp_uf_fun("pure_juniper_decrypt", STR, STR)
+R.contract(M + "juniper_decrypt", trusted=True,
+           types={"crypt": STR}, returns=STR, pure=True,
+           raises={"ValueError": "not J9Valid(crypt)"},
+           ensures=["True"])
+R.contracts[M + "juniper_nonrandom_encrypt"].trusted_ensures = [
+    "implies(len(plain) >= 1, J9Valid(result))",
+    "implies(len(plain) >= 1 and Latin1(plain), J9Dec(result) == plain)"]
